@@ -374,6 +374,7 @@ SDS = [0.1, 0.2, 0.3, 0.5, 1.0, 1.5, 2.0, 0.25, 0.05]
 def gen_diag_record(rng, key="$OMEGA", nitems=None, allow_xn=True, allow_zero_fix=True):
     """`$OMEGA [DIAGONAL(n)] v11 v22 ...` with FIX / SD / VAR options per item and (v)xn."""
     k = nitems or rng.choice([1, 1, 2, 2, 3, 4])
+    lines_mode = rng.random() < 0.3
     body = []
     metas = []
     total = 0
@@ -409,8 +410,33 @@ def gen_diag_record(rng, key="$OMEGA", nitems=None, allow_xn=True, allow_zero_fi
         feats = ["diag"] + (["sd"] if sd else []) + (["fix"] if fix else []) + (["xn"] if n > 1 else []) + (["paren"] if paren else [])
         meta = dict(n=n, var=var, fix=fix, sd=sd, feats=feats, comment=None)
         r = rng.random()
-        if r < 0.3:
-            nm = f"{'IIV' if key == '$OMEGA' else 'RUV'}_{rng.choice('ABCDEFGH')}{rng.randint(1, 99)}"
+        mk_name = lambda: f"{'IIV' if key == '$OMEGA' else 'RUV'}_{rng.choice('ABCDEFGH')}{rng.randint(1, 99)}"
+        if lines_mode and r < 0.8:
+            # stand-alone comment lines between the items: the name comment on the line below the value, a note line
+            # (identifier-like or not) after a named or an unnamed item, several of them; optional indentation
+            ind = lambda: rng.choice(["", " ", "  ", "\t"])
+            note = lambda: rng.choice(["; previous_value 0.4", ";old 0.3", "; 2nd value", ";", "; ---", "; was_fixed", ";; tried 0.5"])
+            style = rng.choice(["below", "below", "named+note", "note", "note", "below+note", "plain"])
+            if style == "below":
+                nm = mk_name()
+                meta["comment"] = nm
+                t += rng.choice(["", " "]) + "\n" + ind() + rng.choice(["; ", ";", ";  "]) + nm + "\n"
+            elif style == "named+note":
+                nm = mk_name()
+                meta["comment"] = nm
+                t += f" ; {nm}\n" + ind() + note() + "\n"
+            elif style == "note":
+                t += "\n" + ind() + note() + "\n"
+            elif style == "below+note":
+                nm = mk_name()
+                meta["comment"] = nm
+                t += "\n" + ind() + f"; {nm}\n" + ind() + note() + "\n"
+            else:
+                t += "\n"
+            feats.append("comment-lines:" + style)
+            t += ind()
+        elif r < 0.3:
+            nm = mk_name()
             meta["comment"] = nm
             t += f" ; {nm}\n"
         elif r < 0.5:
@@ -425,7 +451,9 @@ def gen_diag_record(rng, key="$OMEGA", nitems=None, allow_xn=True, allow_zero_fi
         head += " " + rng.choice(DIAGW) + f"({total})"
     txt = head + rng.choice([" ", "  ", "\n"]) + "".join(body)
     if not txt.endswith("\n"):
-        txt = txt.rstrip(" ") + "\n"
+        txt = txt.rstrip(" \t")
+        if not txt.endswith("\n"):
+            txt += "\n"
     return txt, metas
 
 
